@@ -40,30 +40,6 @@ func visit(a any, fn func(n *pview.Node)) {
 	}
 }
 
-func isValue(n *pview.Node, typ string) bool {
-	if n.Type != "pcommon.Value" || len(n.Fields) == 0 {
-		return false
-	}
-	t, _ := n.Fields[0].Val.(string)
-	return t == typ
-}
-
-// maskIn blanks field `field` in every node of type `typ`.
-func maskIn(typ, field string) func(any) {
-	return func(tree any) {
-		visit(tree, func(n *pview.Node) {
-			if n.Type != typ {
-				return
-			}
-			for i := range n.Fields {
-				if n.Fields[i].Name == field {
-					n.Fields[i].Val = "masked"
-				}
-			}
-		})
-	}
-}
-
 // explanations is empty: the four root causes it used to attribute (empty
 // Bytes value, LogRecord.EventName / ExponentialHistogramDataPoint.ZeroThreshold
 // dropped and Profile.OriginalPayload not base64-decoded by the JSON readers)
